@@ -127,6 +127,10 @@ def ensure_installed():
     _installed = True
     mods = OPS.all_modules()
     for pk, n, m in mods:
+        if n == "isclose":
+            # the C01-form contract of isclose is only claimed (and only true) for rtol = atol = 0: it cannot stand in
+            # for the body at call sites with arbitrary tolerances, so isclose variants are always unfolded
+            continue
         for sig, (fn, *ret) in m.dispatch_map.items():
             if cart_of(sig) == tuple(sig):
                 continue
